@@ -26,14 +26,16 @@ theorem matching_iff (toks : List (List Nat)) (langs : List Lang) (l : Nat) (idx
   · rintro ⟨hl, hf⟩; exact ⟨l, hl, by omega, hf⟩
 
 /-- When auto-detection succeeds it reports exactly the outcome explicit decoding with that language gives
-(status, seed, library state, events) — only `lang_out` is additional. -/
+(status, seed, library state) — `lang_out` is additional, and the dependency calls are the same except for
+the wipe of the detection loop's private index array. -/
 theorem decode_eq_explicit (cfg : Cfg) (env : Env) (lib : Lib) (s : List Nat) (coin : Nat) (w : World) (l : Nat) (idx : List Nat)
     (hl : l < cfg.langs.length)
     (hm : matching (strSplit cfg.numWords (decompose cfg env lib s).1).1 cfg.langs 0 = [(l, idx)])
     (hn : (strSplit cfg.numWords (decompose cfg env lib s).1).2 = cfg.numWords) :
     let a := decode cfg env lib s coin w
     let x := decodeExplicit cfg env lib s coin cfg.langs[l] w
-    a.out.status = x.out.status ∧ a.out.seed = x.out.seed ∧ a.lib = x.lib ∧ a.events = x.events ∧ a.out.langOut = some l := by
+    a.out.status = x.out.status ∧ a.out.seed = x.out.seed ∧ a.lib = x.lib ∧ a.out.langOut = some l ∧
+      ∃ pre post, x.events = pre ++ post ∧ a.events = pre ++ [detectWipe cfg lib] ++ post := by
   have hmem : (l, idx) ∈ matching (strSplit cfg.numWords (decompose cfg env lib s).1).1 cfg.langs 0 := by rw [hm]; simp
   obtain ⟨_, hf⟩ := (matching_iff _ _ _ _).mp hmem
   simp only [decode, decodeExplicit]
@@ -46,10 +48,12 @@ theorem decode_eq_explicit (cfg : Cfg) (env : Env) (lib : Lib) (s : List Nat) (c
   unfold decodeFinish
   simp only
   split
-  · exact ⟨rfl, rfl, rfl, rfl, rfl⟩
+  · exact ⟨rfl, rfl, rfl, rfl, pre, _, rfl, rfl⟩
   · split
-    · exact ⟨rfl, rfl, rfl, rfl, rfl⟩
-    · split <;> exact ⟨rfl, rfl, rfl, rfl, rfl⟩
+    · exact ⟨rfl, rfl, rfl, rfl, pre, _, by simp only [List.append_assoc]; rfl, by simp only [List.append_assoc]⟩
+    · split
+      · exact ⟨rfl, rfl, rfl, rfl, pre, _, by simp only [List.append_assoc]; rfl, by simp only [List.append_assoc]⟩
+      · exact ⟨rfl, rfl, rfl, rfl, pre, _, by simp only [List.append_assoc]; rfl, by simp only [List.append_assoc]⟩
 
 /-- Status precedence of `polyseed_decode`: word count, then language / multiple languages, then checksum,
 then memory, then unsupported features. -/
